@@ -635,7 +635,8 @@ class Taint:
                         continue
                     if isinstance(h, ast.Subscript) and isinstance(h.value, ast.Name) and h.value.id in self.f.params:
                         i = self.f.params.index(h.value.id)
-                        if i < len(call.args) and isinstance(call.args[i], ast.Name) and caller.dict_values_safe(call.args[i].id, 0):
+                        arg = call.args[i] if i < len(call.args) else next((k.value for k in call.keywords if k.arg == h.value.id), None)
+                        if isinstance(arg, ast.Name) and caller.dict_values_safe(arg.id, 0):
                             continue
                     self.unknown.append(f"hole `{norm(h)}` of the argument template")
                     return False
